@@ -54,10 +54,18 @@ def getBatch (p : Pool Val) (idx : Nat) : List (String × Val) :=
     | none => none
     | some s => (lookupI s idx).map (fun v => (e.1, v)))
 
+/-- the loop of `remove_batch` / `clear` over the stores in dictionary order: it stops (raising) at the first `None`
+    store, the stores before it have already been changed -/
+def mapUntilNone (f : StoreC Val → StoreC Val) :
+    List (String × Option (StoreC Val)) → List (String × Option (StoreC Val)) × Bool
+  | [] => ([], false)
+  | (n, none) :: rest => ((n, none) :: rest, true)
+  | (n, some s) :: rest => let r := mapUntilNone f rest; ((n, some (f s)) :: r.1, r.2)
+
 /-- `remove_batch` (a `None` store raises: `batch_index in None`) -/
-def removeBatch (p : Pool Val) (idx : Nat) : Except Err (Pool Val) :=
-  if p.stores.any (·.2.isNone) then .error .attributeError
-  else .ok { p with stores := p.stores.map (fun e => (e.1, e.2.map (·.filter (·.1 != idx)))) }
+def removeBatch (p : Pool Val) (idx : Nat) : Option Err × Pool Val :=
+  let r := mapUntilNone (fun s => s.filter (·.1 != idx)) p.stores
+  (if r.2 then some .attributeError else none, { p with stores := r.1 })
 
 /-- `add_store(node)` with a fresh default store -/
 def addStore (p : Pool Val) (node : String) : Except Err (Pool Val) :=
@@ -73,9 +81,9 @@ def removeStore (p : Pool Val) (node : String) : Except Err (Pool Val) :=
   | some _ => .ok { p with stores := p.stores.filter (·.1 != node) }
 
 /-- `clear()` (a `None` store raises) -/
-def clear (p : Pool Val) : Except Err (Pool Val) :=
-  if p.stores.any (·.2.isNone) then .error .attributeError
-  else .ok { p with stores := p.stores.map (fun e => (e.1, some [])) }
+def clear (p : Pool Val) : Option Err × Pool Val :=
+  let r := mapUntilNone (fun _ => []) p.stores
+  (if r.2 then some .attributeError else none, { p with stores := r.1 })
 
 /-- `len(pool)`: the largest number of batches any store holds -/
 def len (p : Pool Val) : Nat :=
